@@ -5,8 +5,8 @@
 `read_dataset_from_text` reads it back with `_parse_attribute_value`.
 
 * `pyRepr`   : what `repr()` produces for the value kinds that reach the writer
-               (`str`, `int`, `bool`, `float`, and the **numpy scalars** that a dataset
-               read from HDF5 carries: `np.float64(…)`, `np.int64(…)`).
+               (`str`, `int`, `bool`, `float`; since fix 4c93d47 `read_dataset_from_hdf5` hands back
+               plain Python numbers, so numpy scalars no longer reach the text writer).
 * `parseAttr`: `_parse_attribute_value`, branch by branch; Python exceptions are values.
 
 Strings are lists of code points (`Nat`).  `isPrintable` (CPython's `Py_UNICODE_ISPRINTABLE`
@@ -39,8 +39,6 @@ inductive AttrVal
   | int (i : Int)
   | bool (b : Bool)
   | float (lit : Str)       -- a Python float, carried as its literal
-  | npFloat (lit : Str)     -- numpy.float64 scalar (what h5py hands back for a float attribute)
-  | npInt (i : Int)         -- numpy.int64 scalar
   deriving DecidableEq, Repr
 
 /-! ## decimal integers -/
@@ -94,8 +92,6 @@ def reprStr (pr : Nat → Bool) (s : Str) : Str :=
 
 def strTrue : Str := [84, 114, 117, 101]
 def strFalse : Str := [70, 97, 108, 115, 101]
-def npFloatPrefix : Str := [110, 112, 46, 102, 108, 111, 97, 116, 54, 52, 40]   -- "np.float64("
-def npIntPrefix : Str := [110, 112, 46, 105, 110, 116, 54, 52, 40]              -- "np.int64("
 
 /-- `repr(value)` as the text writer produces it -/
 def pyRepr (pr : Nat → Bool) : AttrVal → Str
@@ -104,8 +100,6 @@ def pyRepr (pr : Nat → Bool) : AttrVal → Str
   | .bool true => strTrue
   | .bool false => strFalse
   | .float l => l
-  | .npFloat l => npFloatPrefix ++ l ++ [41]
-  | .npInt i => npIntPrefix ++ reprInt i ++ [41]
 
 /-! ## `_parse_attribute_value` -/
 
@@ -121,12 +115,13 @@ def simpleEsc (c : Nat) : Option Nat :=
   else if c = 118 then some 11 else none
 
 /-- scanner state of the substitution
-`re.sub("\\\\(['\"abfnrtv]|\\\\|[0-7]{1,3}|x[0-9a-fA-F]{2}|u[0-9a-fA-F]{4})", replace_esc, s)` -/
+`re.sub("\\\\(['\"abfnrtv]|\\\\|[0-7]{1,3}|x[0-9a-fA-F]{2}|u[0-9a-fA-F]{4}|U00(?:0[0-9a-fA-F]|10)[0-9a-fA-F]{4})", replace_esc, s)` -/
 inductive EscSt
   | norm
   | bs                                         -- a backslash was read
   | oct (val digits : Nat)                     -- `\` + 1 or 2 octal digits read
   | hex (need val : Nat) (lit : Str)           -- `\x` / `\u` + some hex digits read; `lit` = chars after the backslash
+  | uni (pos val : Nat) (lit : Str)            -- `\U` + `pos` of the 8 digits `00(0h|10)hhhh` read
   deriving DecidableEq, Repr
 
 /-- one input character: new state and the characters emitted.  A backslash that starts no
@@ -143,6 +138,7 @@ def escStep (st : EscSt) (c : Nat) : EscSt × Str :=
       else if isOct c then (.oct (c - 48) 1, [])
       else if c = 120 then (.hex 2 0 [120], [])
       else if c = 117 then (.hex 4 0 [117], [])
+      else if c = 85 then (.uni 0 0 [85], [])
       else (.norm, [92, c])
   | .oct v k =>
     if isOct c then
@@ -152,12 +148,23 @@ def escStep (st : EscSt) (c : Nat) : EscSt × Str :=
     if isHex c then
       (if need = 1 then (.norm, [v * 16 + hexVal c]) else (.hex (need - 1) (v * 16 + hexVal c) (lit ++ [c]), []))
     else if c = 92 then (.bs, 92 :: lit) else (.norm, 92 :: lit ++ [c])
+  | .uni pos v lit =>
+    -- digits 0,1 must be `0`; digits 2,3 are `0h` or `10`; digits 4..7 are any hex digits
+    let ok : Option Nat :=
+      if pos < 2 then (if c = 48 then some 0 else none)
+      else if pos = 2 then (if c = 48 then some 0 else if c = 49 then some 1 else none)
+      else if pos = 3 then (if v = 0 then (if isHex c then some (hexVal c) else none) else (if c = 48 then some 16 else none))
+      else if isHex c then some (v * 16 + hexVal c) else none
+    match ok with
+    | some v' => if pos = 7 then (.norm, [v']) else (.uni (pos + 1) v' (lit ++ [c]), [])
+    | none => if c = 92 then (.bs, 92 :: lit) else (.norm, 92 :: lit ++ [c])
 
 def escFinish : EscSt → Str
   | .norm => []
   | .bs => [92]
   | .oct v _ => [v]
   | .hex _ _ lit => 92 :: lit
+  | .uni _ _ lit => 92 :: lit
 
 def unescapeFrom (st : EscSt) : Str → Str
   | [] => escFinish st
